@@ -57,7 +57,7 @@ def groups(tier, seed):
         # every boundary condition x bc_MPS x (u1, u2, dx): couplings
         add('couplings-1d', Classes=REG1D, MaxL=4, MaxN=12, Queries=ALLQ, BcMpsSet=FMT)
         add('couplings-square', Classes={'Square'}, MaxLx=3, MaxLy=3, MaxN=9, Queries=ALLQ, MultiMod=23, BcMpsSet=FMT)
-        add('couplings-cell', Classes={'Honeycomb', 'Kagome', 'General'}, MaxLx=2, MaxLy=2, MaxN=12, Queries=ALLQ, MultiMod=61,
+        add('couplings-cell', Classes={'Honeycomb', 'Kagome', 'General'}, MaxLx=2, MaxLy=2, MaxN=8, Queries=ALLQ, MultiMod=61,
             PermMults=set())
         add('couplings-cubic', Classes={'Cubic'}, MaxN=4, MaxShift=0, Queries=ALLQ, MultiMod=101, PermMults=set())
         add('multispecies', Classes={'Multi'}, MaxL=3, MaxN=8, Queries=ALLQ - {'multi'}, DxCap=1, PermMults=set())
@@ -173,7 +173,6 @@ class Replayer:
     # -- index maps
     def op_index(self, st, lat, key):
         l = st['last']
-        cfg = st['cfg']
         lo = l['lo']
         m2l = np.array(l['m2l'], dtype=np.intp)
         idx = np.arange(lo, lo + len(m2l))
